@@ -253,17 +253,21 @@ Proof.
   rewrite seq_app. reflexivity.
 Qed.
 
-Lemma cnt_pairs_up g v : simple g -> v < gn g -> cnt v (pairs_up g) = degree g v.
+(* any duplicate-free list of the edges (i,j), i < j, of a simple graph has v as an end
+   exactly degree-of-v times *)
+Lemma cnt_edge_list g L v : simple g -> v < gn g -> NoDup L ->
+  (forall i j, In (i, j) L <-> i < j /\ j < gn g /\ gadj g i j = true) ->
+  cnt v L = degree g v.
 Proof.
-  intros [Hsym Hirr] Hv. rewrite cnt_filter. unfold degree.
+  intros [Hsym Hirr] Hv NL HL. rewrite cnt_filter. unfold degree.
   rewrite (seq_split3 (gn g) v Hv), filter_app. cbn [filter]. rewrite Hirr, app_length.
   rewrite Nat2Z.inj_add, Z.add_comm. f_equal; f_equal.
   - (* the pairs (i, v), i < v *)
     rewrite <- (map_length (fun u => (u, v)) (filter (gadj g v) (seq 0 v))).
     apply NoDup_same_length.
-    + apply NoDup_filter', NoDup_pairs_up.
+    + apply NoDup_filter'; auto.
     + apply NoDup_map_inj; [intros x y _ _ E; inversion E; auto|apply NoDup_filter', seq_NoDup].
-    + intros [i j]. rewrite filter_In, in_pairs_up, in_map_iff. cbn [snd]. split.
+    + intros [i j]. rewrite filter_In, HL, in_map_iff. cbn [snd]. split.
       * intros ((H1 & H2 & H3) & E). apply Nat.eqb_eq in E. subst j.
         exists i. split; auto. apply filter_In. rewrite in_seq, Hsym. split; auto. lia.
       * intros (u & E & Hu). inversion E; subst. apply filter_In in Hu. destruct Hu as [Hu Ha].
@@ -272,13 +276,18 @@ Proof.
     change (filter (gadj g v) (seq (S v) (gn g - S v))) with (up_nbrs g v).
     rewrite <- (map_length (pair v) (up_nbrs g v)).
     apply NoDup_same_length.
-    + apply NoDup_filter', NoDup_pairs_up.
+    + apply NoDup_filter'; auto.
     + apply NoDup_map_inj; [intros x y _ _ E; inversion E; auto|apply NoDup_up_nbrs].
-    + intros [i j]. rewrite filter_In, in_pairs_up, in_map_iff. cbn [fst]. split.
+    + intros [i j]. rewrite filter_In, HL, in_map_iff. cbn [fst]. split.
       * intros ((H1 & H2 & H3) & E). apply Nat.eqb_eq in E. subst i.
         exists j. split; auto. apply in_up_nbrs. auto.
       * intros (u & E & Hu). inversion E; subst. apply in_up_nbrs in Hu.
         rewrite Nat.eqb_refl. tauto.
+Qed.
+
+Lemma cnt_pairs_up g v : simple g -> v < gn g -> cnt v (pairs_up g) = degree g v.
+Proof.
+  intros Hs Hv. apply cnt_edge_list; auto; [apply NoDup_pairs_up|intros; apply in_pairs_up].
 Qed.
 
 (* ------------------------------------------------------------------ the arrays after all edges *)
